@@ -622,14 +622,51 @@ func (e *pathEngine) cond(st *PState, c ssa.Value) (key string, onTrue Tri, ok b
 	// a plain boolean value: call result, phi, parameter...
 	if isBoolType(c.Type()) {
 		k, v := e.resolve(st, c)
+		// the value this condition currently stands for (through phis / variables) may be one of the rule's atoms
+		if v != nil && v != c {
+			if _, again := v.(*ssa.Phi); !again {
+				if k2, t2, ok2 := e.cond(st, v); ok2 {
+					return k2, t2, true
+				}
+			}
+		}
 		if strings.HasPrefix(k, "const:") || e.tracked(st, k, v) {
 			return k, True, true
 		}
 		if _, isPhi := c.(*ssa.Phi); isPhi && k != e.vkey(c) {
 			return k, True, true
 		}
+		// a boolean tested by more than one branch (a named condition reused in several cases) must be remembered,
+		// otherwise the second test is explored against the first one's outcome
+		if e.testedTwice(c) {
+			return k, True, true
+		}
 	}
 	return "", Unknown, false
+}
+
+// testedTwice: the boolean value is the condition (possibly negated) of at least two branch instructions.
+func (e *pathEngine) testedTwice(v ssa.Value) bool {
+	refs := v.Referrers()
+	if refs == nil {
+		return false
+	}
+	n := 0
+	for _, r := range *refs {
+		switch x := r.(type) {
+		case *ssa.If:
+			n++
+		case *ssa.UnOp:
+			if x.Op == token.NOT && x.Referrers() != nil {
+				for _, r2 := range *x.Referrers() {
+					if _, ok := r2.(*ssa.If); ok {
+						n++
+					}
+				}
+			}
+		}
+	}
+	return n >= 2
 }
 
 func isBoolType(t types.Type) bool {
